@@ -16,6 +16,33 @@ CHECKS = {
              "inherited groups <= 2, one chain of classes (DAGs are C04's).",
         technique="explicit exhaustive enumeration of programs x truth assignments x call shapes on the real code, DNF reference oracle",
         design="3/C01"),
+    "C02": dict(
+        text="Exhaustive exploration of family F with 0-3 own and 0-4 inherited postconditions x all truth assignments x 8 "
+             "body outcomes (return of fresh/None/0/[]/mutated-argument objects; raise of Exception, BaseException subclass, "
+             "KeyboardInterrupt) x body mutation modes: the post/body projection of the real event log and the outcome at the "
+             "caller (identity of returned / raised object) must equal the reference interpreter's.",
+        note="Trusted: CPython, renderer, reference. Single-inheritance chains only (DAGs: C04). StopIteration bodies excluded.",
+        technique="explicit exhaustive enumeration on the real code, reference-interpreter oracle on event logs and object identity",
+        design="3/C02"),
+    "C08": dict(
+        text="Exhaustive exploration of family F with 0-2 own/inherited snapshots (captures copy or alias; OLD read by conditions "
+             "or only by error factories) x precondition truth assignments x each postcondition falsy x mutating / rebinding / "
+             "raising bodies, compared event-by-event with the reference (capture once, after the last precondition, before the "
+             "body, never after a failed precondition, never without postconditions; OLD identity and contents), plus a "
+             "hand-enumerated definition-time family (duplicates, diamond, unnamed captures, snapshot not preceded by a "
+             "postcondition, unknown OLD names) x callable kinds.",
+        note="Trusted: CPython, renderer, reference. Bounds: <=2 snapshots per level, <=3 levels.",
+        technique="explicit exhaustive enumeration on the real code, reference-interpreter oracle; definition-time case table",
+        design="3/C08"),
+    "C16": dict(
+        text="Exhaustive exploration of family F (all kinds, sync/async, plain/DBC chains of <=3 classes, own and inherited "
+             "stacks of pre/post/snapshot/invariant, two decorator layouts, foreign functools.wraps decorators at top/middle/"
+             "bottom, def and lambda conditions, four error forms) x all truth assignments (<=6 conditions; above: all with <=3 "
+             "falsy): the complete real event log and the reported error must equal the reference order.",
+        note="Trusted: CPython, renderer, reference. Where the statement leaves freedom (error of a failed non-final group "
+             "prepared eagerly; re-evaluation of a violated lambda at most once) the reference accepts both.",
+        technique="explicit exhaustive enumeration on the real code, full event-log equality with a reference interpreter",
+        design="3/C16"),
 }
 
 NOT_APPLICABLE = []
